@@ -78,7 +78,7 @@ def EXHAUSTIVE(tier):
 
 def plan(tier, seed, avoid):
     shards = 32 if tier == "quick" else 64
-    n = 130 if tier == "quick" else 2400
+    n = 130 if tier == "quick" else 6000
     return [{"shard": i, "n": n} for i in range(shards)]
 
 
